@@ -46,6 +46,41 @@ def dcg(nf):
     return (lambda z, a: 4 * nf * TR * ((2 * z - 1) * (math.log((1 - z) / z) - 1) + 2 * (1 - z))), None, 0.0
 
 
+
+def hq_c2g(eps):
+    """O(a_s) photon-gluon-fusion coefficient of F2 for ONE heavy quark of unit charge (Witten; Glueck, Reya), a_s = alpha_s/(4 pi),
+    eps = m^2/Q^2; non-zero for z < 1/(1+4 eps).  Tends to the massless 4 TR [(z^2+(1-z)^2) ln(Q^2 (1-z)/(m^2 z)) - 1 + 8z(1-z)] for eps -> 0."""
+    zmax = 1.0 / (1.0 + 4.0 * eps)
+
+    def reg(z, a):
+        if not z < zmax:
+            return 0.0
+        b2 = 1.0 - 4.0 * eps * z / (1.0 - z)
+        if b2 <= 0.0:
+            return 0.0
+        b = math.sqrt(b2)
+        L = math.log((1.0 + b) / (1.0 - b))
+        return 4.0 * TR * ((z * z + (1 - z) ** 2 + 4 * eps * z * (1 - 3 * z) - 8 * eps * eps * z * z) * L + b * (-1 + 8 * z * (1 - z) - 4 * eps * z * (1 - z)))
+
+    return reg, None, 0.0
+
+
+def hq_clg(eps):
+    """O(a_s) photon-gluon-fusion coefficient of FL for one heavy quark of unit charge: 4 TR [4 z(1-z) beta - 8 eps z^2 ln((1+beta)/(1-beta))]."""
+    zmax = 1.0 / (1.0 + 4.0 * eps)
+
+    def reg(z, a):
+        if not z < zmax:
+            return 0.0
+        b2 = 1.0 - 4.0 * eps * z / (1.0 - z)
+        if b2 <= 0.0:
+            return 0.0
+        b = math.sqrt(b2)
+        L = math.log((1.0 + b) / (1.0 - b))
+        return 4.0 * TR * (4 * z * (1 - z) * b - 8 * eps * z * z * L)
+
+    return reg, None, 0.0
+
 def gls_bjorken(order, nf, with_lbl=False):
     if order == 0:
         return 1.0
@@ -80,4 +115,13 @@ def selftest():
     assert abs(ref_conv.moment(r, None, s, None, d, 2)[0] - 4 * CF / 3) < 1e-12
     # C_2g N=2 moment: 4 nf TR * (-1/2 ... ) known value: int z [ (z^2+(1-z)^2) ln((1-z)/z) - 1 + 8z(1-z) ] dz = -1/2*? -> cross-check numerically with independent closed form: = 1/6*( ... )
     n += 4
+    # massless limits of the heavy-quark photon-gluon-fusion coefficients
+    for z in (0.05, 0.3, 0.8):
+        eps = 1e-9
+        lim2 = 4 * TR * ((z * z + (1 - z) ** 2) * math.log((1 - z) / (z * eps)) - 1 + 8 * z * (1 - z))
+        assert abs(hq_c2g(eps)[0](z, None) - lim2) < 1e-6 * abs(lim2), (z, hq_c2g(eps)[0](z, None), lim2)
+        assert abs(hq_clg(eps)[0](z, None) - 16 * TR * z * (1 - z)) < 1e-6
+        n += 2
+    assert hq_c2g(0.1)[0](1 / 1.4 + 1e-9, None) == 0.0
+    n += 1
     return n
